@@ -34,6 +34,9 @@ func TestMain(m *testing.M) {
 		"mitm_byte", "mitm_suites", "mitm_ske_replay", "mitm_cke_replay", "mitm_cert_swap", "mitm_cert_attacker", "baseline", "tls_server_name", "enc_cert_twice", "sign_cert_twice", "sign_cert_enc_key", "ecdhe_ske_other_key"} {
 		R.Require("attack:" + k)
 	}
+	for _, k := range []string{"rsa", "p224", "p256", "p384", "p521"} {
+		R.Require("std_client_wrong_key:" + k)
+	}
 	R.Require("suite:e013", "suite:e053", "skipverify")
 	hx.Main(m, R)
 }
@@ -50,7 +53,7 @@ func TestC08_MisconfiguredPeers(t *testing.T) {
 	p := tlsx.GetPKI()
 	n := 0
 	serverAttacks := []string{"baseline", "sign_cert_wrong_key", "enc_cert_wrong_key", "untrusted", "expired", "future", "wrongname", "enc_expired", "rsa_sign_cert", "rsa_enc_cert", "swapped", "enc_cert_twice", "sign_cert_twice", "sign_cert_enc_key"}
-	clientAttacks := []string{"baseline", "client_wrong_key", "client_untrusted", "client_expired"}
+	clientAttacks := []string{"baseline", "client_wrong_key", "client_untrusted", "client_expired", "client_std_right_key", "client_std_wrong_key", "client_std_wrong_key"}
 	hx.Check(t, hx.N(300, 4000), func(t *rapid.T) {
 		n++
 		suite := rapid.SampledFrom(suites).Draw(t, "suite")
@@ -59,6 +62,7 @@ func TestC08_MisconfiguredPeers(t *testing.T) {
 		cc.CipherSuites, sc.CipherSuites = []uint16{suite}, []uint16{suite}
 		cc.InsecureSkipVerify = skip
 		attack := ""
+		stdKind := ""
 		expectFail := true
 		serverSide := rapid.Bool().Draw(t, "serverSide")
 		if serverSide {
@@ -120,6 +124,19 @@ func TestC08_MisconfiguredPeers(t *testing.T) {
 				cert = p.ClientExpired.TLS
 				expectFail = sc.ClientAuth != gmtls.RequireAnyClientCert
 			}
+			if strings.HasPrefix(attack, "client_std_") {
+				// a CA-issued client certificate with an RSA key or an ECDSA key on one of the NIST curves, presented with its own
+				// key (control: whether the server takes such certificates at all is not demanded) or with the key of the other
+				// certificate of the same kind (must fail under every policy)
+				stdKind = rapid.SampledFrom([]string{"rsa", "p224", "p256", "p384", "p521"}).Draw(t, "stdkind")
+				pair := p.StdClients[stdKind]
+				sc.ClientCAs = p.RootsAll
+				if attack == "client_std_right_key" {
+					cert = pair[0].TLS
+				} else {
+					cert = wrongKey(pair[0], pair[1])
+				}
+			}
 			c := cert
 			cc.GetClientCertificate = func(*gmtls.CertificateRequestInfo) (*gmtls.Certificate, error) { return &c, nil }
 		}
@@ -134,6 +151,11 @@ func TestC08_MisconfiguredPeers(t *testing.T) {
 			t.Fatalf("the honest endpoint panicked\n%s", desc)
 		}
 		both := r.Client.HSErr == nil && r.Server.HSErr == nil && r.Client.Panic == nil && r.Server.Panic == nil
+		if attack == "client_std_right_key" {
+			// unspecified outcome; recorded so that the wrong-key cases of the same kind are known to be meaningful
+			R.Case(true, hx.HashKey("stdright", suite, int(sc.ClientAuth), stdKind), fmt.Sprintf("std_client_right_key:%s:completes=%v", stdKind, both))
+			return
+		}
 		if !expectFail {
 			if !both || !bytes.Equal(r.Server.Received, []byte("client secret")) || !bytes.Equal(r.Client.Received, []byte("server secret")) {
 				t.Fatalf("honest configuration failed\n%s", desc)
@@ -147,10 +169,13 @@ func TestC08_MisconfiguredPeers(t *testing.T) {
 			}
 		}
 		cl := []string{"attack:" + attack, fmt.Sprintf("suite:%x", suite)}
+		if stdKind != "" {
+			cl = append(cl, "std_client_wrong_key:"+stdKind)
+		}
 		if skip {
 			cl = append(cl, "skipverify")
 		}
-		R.Case(attack != "baseline" && len(r.S2C) > 100, hx.HashKey("misc", attack, suite, skip, int(sc.ClientAuth)), cl...)
+		R.Case(attack != "baseline" && len(r.S2C) > 100, hx.HashKey("misc", attack, suite, skip, int(sc.ClientAuth), stdKind), cl...)
 		R.Sample(attack, map[string]interface{}{"suite": fmt.Sprintf("%x", suite), "skipVerify": skip, "client_err": fmt.Sprint(r.Client.HSErr), "server_err": fmt.Sprint(r.Server.HSErr)})
 	})
 }
